@@ -338,21 +338,22 @@ def memento_run_local(
             #     1. This function was invoked in another thread or process and we lost the race
             #     2. A runner is being used that memoized the result in another process (possibly
             #        on another machine in a compute cluster) and the result is already memoized.
-            if not storage_backend.is_memoized(
-                fn_reference_with_args.fn_reference, fn_reference_with_args.arg_hash
-            ):
-                try:
+            # An I/O error while checking for or writing the memoized result does not take the
+            # computed result away from the caller.
+            try:
+                if not storage_backend.is_memoized(
+                    fn_reference_with_args.fn_reference,
+                    fn_reference_with_args.arg_hash,
+                ):
                     storage_backend.memoize(key_override, stack_frame.memento, result)
                     memoization_status = "successfully memoized"
-                except IOError:
-                    log.warning(
-                        "IO Error while writing memoized result.", exc_info=True
+                else:
+                    memoization_status = (
+                        "memoized elsewhere while we were computing the result"
                     )
-                    memoization_status = "memoization failed to write result"
-            else:
-                memoization_status = (
-                    "memoized elsewhere while we were computing the result"
-                )
+            except IOError:
+                log.warning("IO Error while writing memoized result.", exc_info=True)
+                memoization_status = "memoization failed to write result"
 
             if (
                 context.local.ignore_result
